@@ -1,4 +1,4 @@
-(* trash-empty (trashcli/empty/*.py, post-fix); --all-users, --print-time, --version not modelled. *)
+(* trash-empty (trashcli/empty/*.py, post-fix); --all-users is eo_all_users; --print-time, --version not modelled. *)
 From TV Require Import Prelude.Str Prelude.PosixPath Codec.DateFmt Codec.TrashInfo Logic.Calendar Logic.Reply
   Prog.Prog Cmd.Put Cmd.Scan.
 Open Scope N_scope.
@@ -10,7 +10,8 @@ Record empty_opts := mkempty {
   eo_dry_run : bool;
   eo_verbose : N;
   eo_environ : environ;
-  eo_uid : N }.
+  eo_uid : N;
+  eo_all_users : option (list (str * N)) }.   (* Some (pwd.getpwall() as (pw_dir, pw_uid))  when --all-users was given *)
 
 (* fs.py RealRemoveFile2 / RealRemoveFileIfExists *)
 Definition remove_file2 (path : str) : prog unit :=
@@ -95,9 +96,9 @@ Definition empty_main (o : empty_opts) : prog N :=
   let interactive := match eo_interactive o with Some b => b | None => tty end in
   (if interactive then
      (* list(trash_dirs): the whole scan happens first *)
-     evs <- select_trash_dirs (fun acc ev => Ret (acc ++ [ev])) (eo_trash_dirs o) (eo_environ o) (eo_uid o) [] ;;
+     evs <- select_trash_dirs (fun acc ev => Ret (acc ++ [ev])) (eo_all_users o) (eo_trash_dirs o) (eo_environ o) (eo_uid o) [] ;;
      reply <- call_str (Input (prepare_output_message evs)) ;;
      if parse_reply reply then for_each evs (empty_handle o tt) else Ret tt
    else
-     select_trash_dirs (empty_handle o) (eo_trash_dirs o) (eo_environ o) (eo_uid o) tt) ;;;
+     select_trash_dirs (empty_handle o) (eo_all_users o) (eo_trash_dirs o) (eo_environ o) (eo_uid o) tt) ;;;
   Ret 0.
